@@ -28,6 +28,9 @@ pub enum Src {
 #[derive(Clone, Debug, Serialize, Deserialize, PartialEq)]
 pub enum Act {
   Sub,
+  /// publish only: subscribe to the connectable value itself (which consumes
+  /// it: it can no longer be connected, and its source must never be subscribed)
+  SubDirect,
   Unsub(usize),
   Emit,
   SrcComplete,
@@ -108,7 +111,12 @@ impl Scenario for C11 {
     let mut ever = 0usize;
     let mut all_left = false;
     for _ in 0..len {
-      let a = match rng.weighted(&[5, 3, 6, 1, 1, if kind == Kind::Publish { 2 } else { 0 }, 3, 3]) {
+      let a = match rng.weighted(&[5, 3, 6, 1, 1, if kind == Kind::Publish { 2 } else { 0 }, 3, 3, if kind == Kind::Publish && ever < 4 { 1 } else { 0 }]) {
+        8 => {
+          live += 1;
+          ever += 1;
+          Act::SubDirect
+        }
         0 if (!all_left || rng.chance(1, 2)) && ever < 4 => {
           all_left = false;
           live += 1;
@@ -148,7 +156,8 @@ impl Scenario for C11 {
 
     // subscriber factory + connect closure, per flavour
     let mut subscribe_fn: Box<dyn FnMut(Probe) -> Box<dyn crate::props::c06::SubHandle>>;
-    let mut connect_fn: Option<Box<dyn FnOnce()>> = None;
+    let mut connect_fn: Option<Box<dyn FnOnce() -> bool>> = None;
+    let mut direct_fn: Option<Box<dyn FnOnce(Probe) -> Option<Box<dyn crate::props::c06::SubHandle>>>> = None;
     macro_rules! build {
       ($hot:expr, $boxty:ty, $sched:expr, $subject:ty, $share:ident) => {{
         let tap2 = tap.clone();
@@ -173,9 +182,16 @@ impl Scenario for C11 {
             let c = src.publish::<$subject>();
             let f = c.fork();
             subscribe_fn = Box::new(move |p| Box::new(f.clone().actual_subscribe(p)));
-            connect_fn = Some(Box::new(move || {
-              let _connection = c.connect();
+            let cell = std::rc::Rc::new(std::cell::RefCell::new(Some(c)));
+            let (c1, c2) = (cell.clone(), cell);
+            connect_fn = Some(Box::new(move || match c1.borrow_mut().take() {
+              Some(c) => {
+                let _connection = c.connect();
+                true
+              }
+              None => false,
             }));
+            direct_fn = Some(Box::new(move |p| c2.borrow_mut().take().map(|c| Box::new(c.actual_subscribe(p)) as Box<dyn crate::props::c06::SubHandle>)));
           }
         }
       }};
@@ -265,11 +281,24 @@ impl Scenario for C11 {
             trace.push_str(if *a == Act::SrcComplete { "src-complete " } else { "src-error " });
           }
         }
+        Act::SubDirect => {
+          if let Some(d) = direct_fn.take() {
+            let log = ProbeLog::new(false);
+            let invoke = w.shared.stamp();
+            if let Some(h) = d(Probe(log.clone())) {
+              let ret = w.shared.stamp();
+              subs.push(SubRec { log, invoke, ret, unsub_invoke: None, handle: Some(h) });
+              trace.push_str(&format!("sub{}(the connectable itself) ", subs.len() - 1));
+            }
+          }
+        }
         Act::Connect => {
           if let Some(c) = connect_fn.take() {
-            connected_at = Some(w.shared.stamp());
-            c();
-            trace.push_str("connect ");
+            let at = w.shared.stamp();
+            if c() {
+              connected_at = Some(at);
+              trace.push_str("connect ");
+            }
           }
         }
         Act::Run => {
@@ -372,6 +401,7 @@ impl Scenario for C11 {
     drop(subs);
     drop(subscribe_fn);
     drop(connect_fn);
+    drop(direct_fn);
     let sim = w.now();
     drop(w);
     Ok(Outcome {
